@@ -171,6 +171,21 @@ def main():
     failing = rep.get("failing", [])
     for m in rep.get("corr_mismatch", []):
         broken.append(f"correspondence: {m}")
+    # 5b. escalation: the correspondence broke during a quick run and the quick search found nothing -> search again with the
+    #     thorough budget (a broken obligation without a failing input is still reported, but a concrete input is worth minutes)
+    escalated = False
+    if rep.get("corr_mismatch") and not ctx.thorough and os.environ.get("VERIF_NO_ESCALATE") != "1":
+        kf0 = {json.dumps(e["sig"], sort_keys=True) for e in vlib.known_findings().get("open", []) if e["property"] == cid}
+        if not [f for f in failing if json.dumps(f.get("sig"), sort_keys=True) not in kf0]:
+            escalated = True
+            print(f"{cid}: correspondence broken and no failing input in the quick search: searching again with the thorough budget")
+            ctx2 = Ctx(cid, args.tier, model_ok, list(broken))
+            ctx2.rng = random.Random(f"{cid}:{ctx.seed}:escalated")
+            try:
+                rep2 = plugin.run(ctx2)
+                failing = failing + rep2.get("failing", [])
+            except Exception:
+                traceback.print_exc()
 
     # 6. known findings
     kf = vlib.known_findings()
